@@ -53,6 +53,9 @@ func (b *recBody) Read(p []byte) (int, error) {
 	defer b.mu.Unlock()
 	if b.fault >= 0 && b.pos >= b.fault && b.fault < len(b.data) {
 		b.ended = true
+		if b.fault%2 == 0 { // the error net/http itself reports for a body that ends before its announced length
+			return 0, io.ErrUnexpectedEOF
+		}
 		return 0, errors.New("scripted body read failure")
 	}
 	if b.pos >= len(b.data) {
